@@ -33,11 +33,11 @@ RULE = (
 STEP_UNIT = 'callback events executed inside module bodies'
 COMPONENTS = {'real': ['flax/linen/module.py (init, init_with_output, apply, bind, unbind, sow, perturb, variable, param, make_rng)', 'flax/core/scope.py (Scope, init, apply, mutability filters)', 'flax/core/frozen_dict.py'], 'stub': ['module bodies are interpreters over generated program specs (harness code running inside real nn.Module subclasses)']}
 ASSUMPTIONS = [
-  'thread isolation of the Linen context stacks is deliberately NOT asserted (the property quantifies over programs, inputs and configurations, not schedules)',
+  'thread isolation is asserted only in its weakest form: two threads doing INDEPENDENT calls (own module instances, own variables) interleaved at callback events each return what they return alone; nothing is asserted about threads sharing a bound module or a scope',
   'exceptions are injected at callback boundaries of module bodies, not between two bytecodes of flax itself',
   'all arithmetic is small integers in float32, so byte comparison is exact however XLA fuses',
 ]
-PROBES = ['fault_in_setup_or_body', 'write_outside_filter_raises', 'write_inside_filter_ok', 'repeat_checked', 'memo_hit_after_fault', 'frozen_returns', 'bind_unbind', 'core_api', 'observe_capture', 'observe_strip_sow', 'observe_no_perturb_col', 'collections_rule_checked', 'inner_module_attr', 'gc_event', 'context_intercept', 'context_named_call_on', 'context_named_call_off', 'context_tabulate']
+PROBES = ['fault_in_setup_or_body', 'write_outside_filter_raises', 'write_inside_filter_ok', 'repeat_checked', 'memo_hit_after_fault', 'frozen_returns', 'bind_unbind', 'core_api', 'observe_capture', 'observe_strip_sow', 'observe_no_perturb_col', 'collections_rule_checked', 'inner_module_attr', 'gc_event', 'context_intercept', 'context_named_call_on', 'context_named_call_off', 'context_tabulate', 'concurrent_interleaved']
 
 errors = None
 
@@ -104,7 +104,10 @@ def generate(rs, tier):
       ops.append(dict(base, op='core', mutable=gen_filter(g), fault=({'at': g.randrange(8)} if g.random() < 0.3 else None)))
     elif r < 0.87:
       ops.append(dict(base, op='observe', how=g.choice(['capture', 'strip_sow', 'no_perturb_col']), mutable=gen_filter(g)))
-    elif r < 0.93:
+    elif r < 0.90:
+      # two threads, each doing its own independent call, interleaved at callback events by the seeded scheduler
+      ops.append(dict(base, op='concurrent', prog2=g.randrange(nprog), vars2=g.randrange(8), seed2=g.randrange(5), kinds=[g.choice(['apply', 'apply_int', 'capture', 'init']), g.choice(['apply', 'apply_int', 'capture', 'init', 'construct'])], sched_seed=g.getrandbits(40)))
+    elif r < 0.95:
       # process-global / thread-local context that must be unwound on every exit path
       ops.append(dict(base, op='context', how=g.choice(['intercept', 'intercept', 'named_call_on', 'named_call_off', 'tabulate']), fault=({'at': g.randrange(64)} if g.random() < 0.5 else None)))
     else:
@@ -405,6 +408,8 @@ class LWorld:
       self.log.add(oi, 'bind', out[0])
     elif k == 'core':
       self.core_op(oi, op, x)
+    elif k == 'concurrent':
+      self.concurrent(oi, op, x)
     elif k == 'context':
       j, v = self.pick_vars(pi, op['vars'])
       if v is None:
@@ -503,6 +508,69 @@ class LWorld:
       raise kernel.HarnessError('unknown op ' + k)
     if x.tobytes() != x_before:
       raise Violation('inputs-changed', f'op {oi}: the input array was modified')
+
+  def concurrent(self, oi, op, x):
+    """Two simulated threads perform independent calls (own module instance, own variables); the seeded scheduler
+    switches between them at callback events inside the module bodies.  Each must return what it returns alone."""
+    from sim import sched as S
+
+    def job(pi, vj, seed, kind):
+      m = self.mods[pi]
+      spec = self.progs[pi]['spec']
+      xx = P.make_input(self.progs[pi]['batch'], op['fill'])
+      rngs = self.rngs(self.specs(pi), seed, True)
+      if kind == 'init':
+        return lambda: m.init_with_output(rngs, xx)
+      if kind == 'construct':
+        # merely constructing a module at top level (and initialising it) while another thread is inside a call
+        return lambda: P.make(spec, inner=m.inner).init_with_output(rngs, xx)
+      j, v = self.pick_vars(pi, vj)
+      if v is None:
+        return lambda: m.init_with_output(rngs, xx)
+      r2 = {kk: vv for kk, vv in rngs.items() if kk != 'params' or 'params' in P.streams_used(spec)}
+      if kind == 'apply':
+        return lambda: m.apply(v, xx, rngs=r2, mutable=False)
+      if kind == 'apply_int':
+        return lambda: m.apply(v, xx, rngs=r2, mutable=['intermediates'])
+      return lambda: m.apply(v, xx, rngs=r2, mutable=['intermediates'], capture_intermediates=True)
+
+    ja = job(op['prog'], op['vars'], op['seed'], op['kinds'][0])
+    jb = job(op['prog2'], op['vars2'], op['seed2'], op['kinds'][1])
+    ra = self.guarded(oi, 'call A alone', ja)
+    rb = self.guarded(oi, 'call B alone', jb)
+    if ra[0] != 'ok' or rb[0] != 'ok':
+      return
+    sc = S.Sched(rng=stream(op['sched_seed'], 'sched'), step_cap=20000)
+    out = {}
+    before = self.world_snapshot()
+    P.CTL.reset()
+    P.CTL.yield_hook = lambda what: sc.yield_('ev')
+    try:
+      def tb():
+        out['b'] = jb()
+
+      t = S.SimThread(sc, target=tb)
+      t.start()
+      out['a'] = ja()
+      t.join()
+    except (S.Deadlock, S.StepCap) as e:
+      raise Violation('concurrent-calls-interfere', f'op {oi}: {e}')
+    finally:
+      P.CTL.yield_hook = None
+      P.CTL.reset()
+      sc.shutdown()
+    exc = [t_.get('exc') for t_ in sc.tasks.values() if t_.get('exc') is not None]
+    if exc:
+      raise Violation('concurrent-calls-interfere', f'op {oi}: call B ({op["kinds"][1]}) raised {type(exc[0]).__name__}: {str(exc[0])[:200]} when interleaved with call A ({op["kinds"][0]}) in another thread; alone it succeeds')
+    if val(out['a']) != val(ra[1]) or val(out.get('b')) != val(rb[1]):
+      which = 'A' if val(out['a']) != val(ra[1]) else 'B'
+      raise Violation('concurrent-calls-interfere', f'op {oi}: call {which} returned something else when interleaved with an independent call in another thread ({op["kinds"]}, {len(sc.trace)} scheduling choices) than when run alone')
+    if self.world_snapshot() != before:
+      raise Violation('inputs-changed', f'op {oi}: inputs changed by the concurrent calls')
+    if any(sc.trace):
+      self.res.probe('concurrent_interleaved')
+    self.calls += 2
+    self.log.add(oi, 'concurrent', op['kinds'], len(sc.trace))
 
   def check_returned_type(self, oi, v):
     want_frozen = self.plan['knobs']['frozen']
